@@ -34,7 +34,28 @@ use tera_verif_harness::{catch, driver, quiet_panics, Env};
 mod evgen;
 
 const CHILD_FLAG: &str = "--child-vm";
-const PROPERTY: &str = "C07";
+/// The property this run reports under, from the `--out` file name the check script chooses
+/// (`C04.*` → C04, `C01.*` → C01, otherwise C07; same convention as cpipe).  cvm's correspondence
+/// (model VM = real VM on the real listings) is a tie of all of them; each DIRECT oracle states a
+/// clause of ONE property and is a property violation only when cvm runs for that property —
+/// elsewhere the same observation is reported as a broken tie (model-mismatch), never as an alarm
+/// on a property that holds.
+fn property() -> &'static str {
+    let out = out_path();
+    let base = std::path::Path::new(&out).file_name().map(|s| s.to_string_lossy().to_string()).unwrap_or_default();
+    if base.starts_with("C04.") {
+        "C04"
+    } else if base.starts_with("C01.") {
+        "C01"
+    } else {
+        "C07"
+    }
+}
+
+/// violation kind of a direct oracle that states a clause of property `of`
+fn oracle_kind(of: &str) -> &'static str {
+    if property() == of { "property" } else { "model-mismatch" }
+}
 
 // ------------------------------------------------------------------------------ cases
 
@@ -878,7 +899,7 @@ fn replay_json(set: &Set, entry: usize, run: &Run, real: &str, model: &str, stag
     one.entries = vec![set.entries[entry].clone()];
     one.runs = vec![run.clone()];
     serde_json::json!({
-        "property": PROPERTY,
+        "property": property(),
         "harness_bin": "cvm",
         "detail": {"stage": stage},
         "case": one.to_json(),
@@ -951,7 +972,7 @@ fn main() {
     }
     let t0 = Instant::now();
     let threads = std::thread::available_parallelism().map(|n| n.get()).unwrap_or(4).min(16);
-    let mut report = Report::new(PROPERTY);
+    let mut report = Report::new(property());
     report.rule = "a (template set, entry, context) whose real listings were executed by the model VM with a comparable outcome (not `unmodelled`)".into();
     let mut rng = Rng::new(env.seed ^ 0x766d5f6376);
 
@@ -1019,9 +1040,9 @@ fn main() {
             report.oracle_checks += 1;
             report.oracle_failures += 1;
             report.violation(
-                "property",
+                oracle_kind("C07"),
                 format!("rendering did not come back ({why}; confirmed alone with a 150 s cap): {:?}", sets[*si].templates),
-                serde_json::json!({"property": PROPERTY, "case": sets[*si].to_json(), "detail": {"stage": "real-render", "why": why}}),
+                serde_json::json!({"property": property(), "case": sets[*si].to_json(), "detail": {"stage": "real-render", "why": why}}),
             );
         } else {
             report.count("sets.slow_under_load_only");
@@ -1061,7 +1082,7 @@ fn main() {
                     }
                 }
                 report.violation(
-                    "property",
+                    oracle_kind("C07"),
                     format!("{what}: {} stacks {} — {:?} (autoescape {}) entry {:?} ctx {:?}", show(&o.real), o.stacks, small_set.templates, small_set.ae, small_set.entries[0], run.ctx),
                     replay_json(&small_set, 0, &run, &o.real, "-", "real-render"),
                 );
@@ -1102,7 +1123,7 @@ fn main() {
                             reported += 1;
                             let small = reduce_templates(set, ei, &set.runs[ri], got);
                             report.violation(
-                                "property",
+                                oracle_kind("C04"),
                                 format!(
                                     "render_block(\"{tname}\", \"{block}\") depends on the captures that enclose the block: {} — the same block outside any capture (template d0) gives {} — template {:?} (autoescape {}) ctx {:?} [render_block must return the block's own text: F4 / C04's render_block clause]",
                                     show(got), show(want), small.templates, set.ae, set.runs[ri].ctx
@@ -1181,7 +1202,7 @@ fn main() {
             report.violation(
                 "model-mismatch",
                 format!("the model driver refused the environment of {:?}: {a}", sets[si].templates),
-                serde_json::json!({"property": PROPERTY, "detail": {"stage": "vm-env-decode", "answer": a}, "case": sets[si].to_json()}),
+                serde_json::json!({"property": property(), "detail": {"stage": "vm-env-decode", "answer": a}, "case": sets[si].to_json()}),
             );
             continue;
         }
@@ -1220,7 +1241,7 @@ fn main() {
         let set = &sets[*si];
         let real = obs.iter().find(|o| o.set == *si && o.entry == *ei && o.run == *ri).map(|o| o.real.clone()).unwrap_or_default();
         report.violation(
-            "property",
+            oracle_kind("C01"),
             format!("C01 (static hypotheses hold): the real output contains {ch:?} which no WriteText of the listings contains — {:?} entry {:?} ctx {:?}: {}", set.templates, set.entries[*ei], set.runs[*ri].ctx, show(&real)),
             replay_json(set, *ei, &set.runs[*ri], &real, "-", "c01-static-oracle"),
         );
@@ -1286,7 +1307,7 @@ fn main() {
                         report.oracle_failures += 1;
                         if !found {
                             found = true;
-                            report.violation("property", format!("the real render panicked / left stacks: {} — {:?}", show(real), set.templates), replay_json(&burst, 0, &burst.runs[ri], real, "-", "real-render"));
+                            report.violation(oracle_kind("C07"), format!("the real render panicked / left stacks: {} — {:?}", show(real), set.templates), replay_json(&burst, 0, &burst.runs[ri], real, "-", "real-render"));
                         }
                     }
                 }
@@ -1310,7 +1331,7 @@ fn main() {
         report.violation(
             "model-mismatch",
             format!("the verified bytecode checker (Model/VmCheck.lean `checkChunk`) refuses a chunk the real compiler stored: {ids} — {}", format!("{:?}", sets[si].templates).chars().take(400).collect::<String>()),
-            serde_json::json!({"property": PROPERTY, "harness_bin": "cvm", "detail": {"stage": "vm-checker", "chunks": ids}, "case": sets[si].to_json()}),
+            serde_json::json!({"property": property(), "harness_bin": "cvm", "detail": {"stage": "vm-checker", "chunks": ids}, "case": sets[si].to_json()}),
         );
     }
     let cmp = report.model_comparisons.max(1);
